@@ -10,6 +10,7 @@ def namedProducer (e : Env) (r : Rec) (seen : Bool) (c : Ctx) (child : ANode) : 
   else if isExpr child then pure (true, some ⟨← r.expr c child, true, seen⟩)
   else if isPattern child then pure (seen, spaced (← r.pattern c child))
   else if child.kind == .space then pure (seen, none)
+  else if child.kind == .semicolon then pure (seen, none)   -- terminator of a hashed value in math args: not printed
   else reject (.dropped "convert_named" child.kind)
 
 /-- `convert_named`. -/
@@ -20,6 +21,7 @@ def keyedProducer (e : Env) (r : Rec) (seen : Bool) (c : Ctx) (child : ANode) : 
   if child.kind == .colon then pure (seen, tightSpaced (← e.synLeaf child ":"))
   else if isExpr child then pure (true, some ⟨← r.expr c child, true, seen⟩)
   else if child.kind == .space then pure (seen, none)
+  else if child.kind == .semicolon then pure (seen, none)   -- terminator of a hashed value in math args: not printed
   else reject (.dropped "convert_keyed" child.kind)
 
 /-- `convert_keyed`. -/
@@ -30,6 +32,7 @@ def spreadProducer (e : Env) (r : Rec) (_ : Unit) (c : Ctx) (child : ANode) : M 
   if child.kind == .dots then pure ((), spacedTight (← e.synLeaf child ".."))
   else if isExpr child then pure ((), tightSpaced (← r.expr c child))
   else if child.kind == .space then pure ((), none)
+  else if child.kind == .semicolon then pure ((), none)   -- terminator of a hashed value in math args: not printed
   else reject (.dropped "convert_spread" child.kind)
 
 /-- `convert_spread`. -/
